@@ -758,6 +758,43 @@ theorem durable_lookup_bytes_linked (info : TrieCodec.Info) (hinfo : TrieCodec.V
     rw [lookupAll_freshSt, ← hlook q .fuzzyPartialPrefix hq] at this
     exact this
 
+/-- the size limits hold for the empty file and for the one-entry file of the example -/
+theorem fitsInfo_empty : FitsInfo {} [] := by
+  refine ⟨?_, ?_⟩
+  · show TrieCodec.Item.Fits (.node 0 none .nil)
+    exact ⟨(fun ps h => by cases h), (by decide), trivial⟩
+  intro recs data h
+  have hb : (TrieCodec.Builder.ofEntries {} []).buffers = some ([(1, 0, 0)], []) := by decide
+  rw [hb] at h
+  cases h
+  decide
+
+theorem fitsInfo_one : FitsInfo {} [([10268], { text := [28204], freq := 5, lastUsed := some 0 })] := by
+  refine ⟨?_, ?_⟩
+  · show TrieCodec.Item.Fits (.node 0 none (.cons 10268 (some [{ text := [28204], freq := 5, lastUsed := some 0 }]) .nil .nil))
+    refine ⟨(fun ps h => by cases h), (by decide), ⟨?_, (by decide), trivial, trivial⟩⟩
+    intro ps h
+    cases h
+    decide
+  intro recs data h
+  have hb : (TrieCodec.Builder.ofEntries {} [([10268], { text := [28204], freq := 5, lastUsed := some 0 })]).buffers =
+      some ([(1, 1, 0), (2, 1, 10268), (0, 13, 0)], [48, 11, 12, 3, 230, 184, 172, 2, 1, 5, 128, 1, 0]) := by decide
+  rw [hb] at h
+  cases h
+  decide
+
+/-- non-vacuity of `durable_lookup_bytes_linked`: learn 測 under ㄘㄜˋ on a fresh dictionary and drop it — the
+    run exists, ends closed, and every snapshot along it fits the format -/
+example : ∃ cw, crun (cinit (Trie.build []) none)
+      [.add [10268] [28204] 5 none, .close, .d, .d, .d, .w, .w, .w, .w, .w, .w, .w, .w, .w, .d] = some cw ∧
+    cw.phase = .closed ∧
+    SnapshotsOk (FitsInfo {}) (cinit (Trie.build []) none)
+      [.add [10268] [28204] 5 none, .close, .d, .d, .d, .w, .w, .w, .w, .w, .w, .w, .w, .w, .d] := by
+  refine ⟨_, rfl, rfl, ?_⟩
+  refine snapshotsOk_cons fitsInfo_empty _ rfl ?_
+  iterate 14 refine snapshotsOk_cons fitsInfo_one _ rfl ?_
+  exact snapshotsOk_nil fitsInfo_one
+
 /-- non-vacuity of the hypotheses of `durable_lookup_bytes_linked`: the calls of the example run above
     have arguments of the Rust types -/
 example : ∀ a ∈ ([.add [10268] [28204] 5 none, .update [10268] [28204] 9 7, .flush, .close] : List CAct), CActValid a := by
